@@ -220,6 +220,11 @@ func scenarios(tier string, seed int64) []Scn {
 		add(Scn{Budget: 1, Base: "awaiting", NCalls: 3, Hook: "handshake", UserID: true})
 		add(Scn{Budget: 3, Base: "awaiting", NCalls: 1, RST: true})
 		add(Scn{Budget: -1, Base: "awaiting", NCalls: 2, UserID: true})
+		// user-assigned ids that are, or look like, addresses
+		add(Scn{Budget: 3, Base: "idle", UserID: true, IDForm: "remote-addr"})
+		add(Scn{Budget: 1, Base: "awaiting", NCalls: 2, UserID: true, IDForm: "remote-addr", Hook: "handshake", RST: true})
+		add(Scn{Budget: 3, Base: "idle", UserID: true, IDForm: "ip-like", Losses: 2})
+		add(Scn{Budget: -1, Base: "idle", Refuse: 2, Mode: "reject", UserID: true, IDForm: "remote-addr"})
 		// during a redial: refused attempts
 		add(Scn{Budget: 3, Base: "idle", Refuse: 2, Mode: "reject", Hook: "handshake", UserID: true})
 		add(Scn{Budget: 3, Base: "awaiting", Refuse: 3, Mode: "reject", Hook: "plain"})
